@@ -130,7 +130,7 @@ func directC15glue(g *G, rep *Report) {
 				sc := [][2]string{{"{sp}", " "}, {"{nil}", ""}, {"{lb}", "{"}, {"{rb}", "}"}, {"{\\n}", "\n"}, {"{\\t}", "\t"}, {"{\\r}", "\r"}}[r.Intn(7)]
 				pieces = append(pieces, gluePiece{src: sc[0], out: sc[1], kind: "tag"})
 			case c == 7:
-				lit := []string{" x  \n y ", "{$notatag}", "a // b\n/* c */", "<  >", "{{}}", "é\tà"}[r.Intn(6)]
+				lit := []string{" x  \n y ", "{$notatag}", "a // b\n/* c */", "<  >", "{{}}", "é\tà", "\n", " \n ", "\r\n", "  ", "\t\n\t", "\r", " "}[r.Intn(13)]
 				pieces = append(pieces, gluePiece{src: "{literal}" + lit + "{/literal}", out: lit, kind: "tag"})
 			case c == 8:
 				pieces = append(pieces, gluePiece{src: []string{"/* c */", "/* multi\n line */", "/* */"}[r.Intn(3)], kind: "comment", comment: true})
